@@ -88,6 +88,10 @@ def setup(ctx):
             with core.monitor_scope():
                 ctx.call("hdd.post")
                 s = as_bits(input)
+                if M < 1 or s.size % M:
+                    # (the monitor must not raise here itself: a ValueError of its own would look like the documented rejection)
+                    ctx.check("hdd.post", False, f"HDD returned a result for {s.size} slots, which is not a whole number of {M}-slot symbols (ValueError expected)")
+                    return r
                 blocks = s.reshape(-1, M)
                 ok = valid_seq(r) and r.data.size == s.size
                 msg = "HDD output has the wrong type/length"
@@ -239,6 +243,16 @@ def w_rejects(ctx, rng, i):
     with core.quiet():
         ctx.raises("rejects", ValueError, Pm.HDD, slots[: nsym * M // bad_M * bad_M] if False else rng.integers(0, 2, bad_M * nsym), bad_M)
         ctx.raises("rejects", ValueError, Pm.HDD, np.concatenate([slots, rng.integers(0, 2, extra)]), M)
+        # ... also when every whole symbol is already a valid codeword (nothing to repair), in every container, for every order; the
+        # surplus slots are all 0, all 1 or random
+        Mv = int(MS[int(rng.integers(len(MS)))])
+        kv = int(np.log2(Mv))
+        cw = as_bits(Pm.PPM_ENCODER(rng.integers(0, 2, kv * int(rng.integers(1, 5))), Mv))
+        ex = int(rng.integers(1, Mv))
+        tail = [np.zeros(ex, np.uint8), np.ones(ex, np.uint8), rng.integers(0, 2, ex).astype(np.uint8)][int(rng.integers(3))]
+        ragged = np.concatenate([cw, tail])
+        ctx.raises("rejects", ValueError, Pm.HDD, render(ragged, FORMS[int(rng.integers(len(FORMS)))]), Mv)
+        ctx.raises("rejects", ValueError, Pm.SDD, np.kron(ragged, np.ones(sps)), Mv)
         ctx.raises("rejects", ValueError, Pm.SDD, rng.normal(0, 1, bad_M * nsym * sps), bad_M)
         ctx.raises("rejects", ValueError, Pm.SDD, rng.normal(0, 1, nsym * M * sps + int(rng.integers(1, M * sps))), M)
         ctx.raises("rejects", ValueError, Pm.SDD, T.electrical_signal(rng.normal(0, 1, nsym * M * sps + 1)), M)
